@@ -126,7 +126,7 @@ def run(repo, rep):
                             defs.setdefault(k_, v_[0])
                 n += 1
                 try:
-                    lb = _lower_bound(form(_fold_len(ml, defs)))
+                    lb = _lower_bound(form(_fold_len(ml, defs, m)))
                 except (NotLinear, TypeError, AttributeError):
                     lb = None
                 rep.check(lb is not None and lb >= 1, 'C02.f', 'evaluator:width-floor', '%s:%d' % (e.module.relpath, c.lineno),
